@@ -48,10 +48,15 @@ def _unesc(s):
     return re.sub(r"\\u\{([0-9a-f]+)\}|\\n|\\t|\\\\", lambda m: chr(int(m.group(1), 16)) if m.group(1) else {"\\n": "\n", "\\t": "\t", "\\\\": "\\"}[m.group(0)], s)
 
 
+_built = False
+
+
 def rxcheck(lines):
     """lines: list of (cmd, [fields]).  Returns list of result strings (after 'OK ') or raises."""
-    if not os.path.exists(RXCHECK):
-        build_rxcheck()
+    global _built
+    if not _built:
+        build_rxcheck()      # incremental: a no-op when nothing changed
+        _built = True
     inp = "\n".join("%s %s" % (c, "\t".join(_esc(f) for f in fs)) for c, fs in lines) + "\n"
     p = subprocess.run([RXCHECK], input=inp, capture_output=True, text=True, timeout=600)
     out = []
@@ -297,7 +302,22 @@ def parse(pat):
 
 
 # ---- SMT emission ------------------------------------------------------------------------------
+CLASS_FILTER = None   # optional list of ranges every class is intersected with (sound when the query restricts the alphabet anyway)
+
+
+def _intersect(r1, r2):
+    out = []
+    for a, b in r1:
+        for c, d in r2:
+            lo, hi = max(a, c), min(b, d)
+            if lo <= hi:
+                out.append((lo, hi))
+    return norm(out)
+
+
 def cls_smt(ranges):
+    if CLASS_FILTER is not None:
+        ranges = _intersect(ranges, CLASS_FILTER)
     if not ranges:
         return "re.none"
     parts = []
@@ -458,3 +478,11 @@ def captures_real(pat, text):
 def replace_all_real(pat, repl, text):
     r = rxcheck([("R", [pat, repl, text])])[0]
     return None if r is None else _unesc(r)
+
+
+def escape_real(text):
+    """regex::escape as computed by the real crate."""
+    r = rxcheck([("E", [text])])[0]
+    if r is None:
+        raise RxUnsupported("rxcheck E failed")
+    return _unesc(r)
